@@ -3690,6 +3690,24 @@ FROM (
                 cols.append(f"{vp_reduce_refs(v_rule, refs)} AS {v_qn}")
         return cols
 
+    @staticmethod
+    def _joined_key_ref(
+        join_op: str, key: str, joined: List[Dict[str, Any]], comp_to_alias: Dict[str, str]
+    ) -> str:
+        """Reference to a join key on the already-joined side, for the ON clause.
+
+        FULL JOIN: the key is NULL in the rows that came only from the other operands, so it is
+        the COALESCE across the joined operands exposing it (as in the SELECT list), not the
+        column of a single one of them.
+        """
+        if join_op == tokens.FULL_JOIN:
+            refs = [
+                f"{i['sql_alias']}.{quote_name(key)}" for i in joined if key in i["ds"].components
+            ]
+            if len(refs) > 1:
+                return f"COALESCE({', '.join(refs)})"
+        return f"{comp_to_alias.get(key, joined[0]['sql_alias'])}.{quote_name(key)}"
+
     def visit_JoinOp(self, node: AST.JoinOp) -> str:  # type: ignore[override]
         """Visit a join operation."""
         clause_info: List[Dict[str, Any]] = []
@@ -3813,7 +3831,7 @@ FROM (
                 continue
             right_alias = info["sql_alias"]
             on_parts = [
-                f"{comp_to_alias.get(k, first_sql_alias)}.{quote_name(k)} = "
+                f"{self._joined_key_ref(node.op, k, clause_info[: idx + 1], comp_to_alias)} = "
                 f"{right_alias}.{quote_name(k)}"
                 for k in pairwise_keys[idx]
                 if k in info["ds"].components
